@@ -22,7 +22,7 @@ ASSUMPTIONS = [
     "theorems about count / iter_bits / Display carry the capacity guard 64*N + 64 <= 2^64 (no usize overflow); every array that "
     "fits a 64-bit address space satisfies it",
 ]
-TRUSTED_EXTRA = ["harness watchdog: a case that does not return within 2 s is reported as `hang` (a violation)"]
+TRUSTED_EXTRA = ["harness watchdog: a case that burns 2 s of CPU time without returning is reported as `hang` (a violation)"]
 MANIFEST = {
     "level": "proof",
     "text": ("Lean 4 theorems over a word-level model (List of u64 words, any N): set/remove/flip/clear/new/from_u64/and/or/xor/not "
